@@ -36,6 +36,9 @@ func binaryEval(binaryOp stmt.BinaryOP, left, right *collections.FloatArray) *co
 
 	capacity := left.Capacity()
 	result := collections.NewFloatArray(capacity)
+	// number literal op number literal is a number literal: the enclosing operator must not take it
+	// for a series which has a value in every slot
+	result.SetSingle(left.IsSingle() && right.IsSingle())
 
 	for i := 0; i < capacity; i++ {
 		leftHasValue := left.HasValue(i)
